@@ -72,7 +72,7 @@ def run_impl(ctx, case):
     from thejoker.thejoker import TheJoker
 
     n = case["n"]
-    lib = S.make_library(n, seed=case["seed"] % 1000, with_lnprior=True)
+    lib = S.make_library(n, seed=case["seed"] % 1000, with_lnprior=True, alt_units=case["seed"] % 3 == 0)
     rec = S.RecGen(case["seed"])
     joker = TheJoker(real_prior(), rng=rec)
     stub = None
@@ -138,12 +138,18 @@ def predicate(case, obs):
     import astropy.units as u
 
     lib, smp = obs["lib"], obs["samples"]
-    for name, unit in (("P", u.day), ("e", u.one), ("omega", u.rad), ("M0", u.rad), ("s", u.km / u.s)):
+    for name in ("P", "e", "omega", "M0", "s"):
         if len(smp) and name in smp.par_names:
-            got = np.asarray(smp[name].to_value(unit), float)
+            unit = lib[name].unit  # compare as physical quantities, in the library's own unit
+            try:
+                got = np.asarray(smp[name].to_value(unit), float)
+            except Exception as e:
+                errs.append(f"column {name}: returned unit {smp[name].unit} not convertible to the library's {unit}")
+                continue
             want = np.asarray(lib[name].to_value(unit), float)[obs["rows"]] if obs["rows"] else np.zeros(0)
-            if len(got) != len(want) or not np.array_equal(got, want):
-                errs.append(f"column {name} of the returned rows differs from the library rows (modified / invented values)")
+            same = np.array_equal(got, want) if smp[name].unit == unit else np.allclose(got, want, rtol=1e-12, atol=0)
+            if len(got) != len(want) or not same:
+                errs.append(f"column {name} of the returned rows differs from the library rows (modified / invented values): {got[:3]} {unit} vs {want[:3]} {unit}")
     return errs
 
 
